@@ -198,6 +198,7 @@ impl WmoParser {
     fn read_chunks<R: Read + Seek>(&self, reader: &mut R) -> Result<HashMap<ChunkId, Chunk>> {
         let mut chunks = HashMap::new();
         let start_pos = reader.stream_position()?;
+        let stream_end = reader.seek(SeekFrom::End(0))?;
         reader.seek(SeekFrom::Start(start_pos))?;
 
         // Read chunks until end of file
@@ -206,6 +207,11 @@ impl WmoParser {
                 Ok(header) => {
                     trace!("Found chunk: {}, size: {}", header.id, header.size);
                     let data_pos = reader.stream_position()?;
+
+                    // A chunk cannot be larger than what is left of the stream
+                    if u64::from(header.size) > stream_end.saturating_sub(data_pos) {
+                        return Err(WmoError::InvalidChunkSize(header.size));
+                    }
 
                     chunks.insert(
                         header.id,
@@ -229,6 +235,12 @@ impl WmoParser {
         reader.seek(SeekFrom::Start(start_pos))?;
 
         Ok(chunks)
+    }
+
+    /// Number of records to reserve room for: the count announced by MOHD, but never more
+    /// than the chunk holding the records has room for
+    fn bounded_capacity(chunk: &Chunk, count: u32, record_size: usize) -> usize {
+        (count as usize).min(chunk.header.size as usize / record_size)
     }
 
     /// Parse the WMO version
@@ -351,9 +363,13 @@ impl WmoParser {
         };
 
         momt_chunk.seek_to_data(reader)?;
-        let mut materials = Vec::with_capacity(n_materials as usize);
-
         const MATERIAL_SIZE: usize = 64;
+
+        let mut materials = Vec::with_capacity(Self::bounded_capacity(
+            momt_chunk,
+            n_materials,
+            MATERIAL_SIZE,
+        ));
 
         for _ in 0..n_materials {
             let flags = WmoMaterialFlags::from_bits_truncate(reader.read_u32_le()?);
@@ -435,7 +451,8 @@ impl WmoParser {
         };
 
         mogi_chunk.seek_to_data(reader)?;
-        let mut groups = Vec::with_capacity(n_groups as usize);
+        // Each MOGI entry is 32 bytes
+        let mut groups = Vec::with_capacity(Self::bounded_capacity(mogi_chunk, n_groups, 32));
 
         for i in 0..n_groups {
             let flags = WmoGroupFlags::from_bits_truncate(reader.read_u32_le()?);
@@ -534,7 +551,8 @@ impl WmoParser {
         };
 
         mopt_chunk.seek_to_data(reader)?;
-        let mut portals = Vec::with_capacity(n_portals as usize);
+        // Each MOPT entry is 20 bytes
+        let mut portals = Vec::with_capacity(Self::bounded_capacity(mopt_chunk, n_portals, 20));
 
         for _ in 0..n_portals {
             let vertex_index = reader.read_u16_le()? as usize;
@@ -680,7 +698,8 @@ impl WmoParser {
         };
 
         molt_chunk.seek_to_data(reader)?;
-        let mut lights = Vec::with_capacity(n_lights as usize);
+        // Each MOLT entry is 48 bytes
+        let mut lights = Vec::with_capacity(Self::bounded_capacity(molt_chunk, n_lights, 48));
 
         for _ in 0..n_lights {
             let light_type_raw = reader.read_u8()?;
@@ -863,7 +882,8 @@ impl WmoParser {
         };
 
         mods_chunk.seek_to_data(reader)?;
-        let mut sets = Vec::with_capacity(n_doodad_sets as usize);
+        // Each MODS entry is 32 bytes
+        let mut sets = Vec::with_capacity(Self::bounded_capacity(mods_chunk, n_doodad_sets, 32));
 
         for _i in 0..n_doodad_sets {
             // Read 20 bytes for the set name (including null terminator)
